@@ -162,14 +162,22 @@ theorem unit_String : Gen.unit_String = [("Sat", "sat"), ("default", "unknown")]
 /-- exactly these functions of the mint package touch `ms.cache` -/
 theorem cacheUsers : Gen.cacheUsers = ["Start", "getActiveKeysets", "getKeysetById", "mintTokensRequest", "swapRequest"] := rfl
 
-/-- the key expression of both cached handlers is `req.Method + req.URL.String() + string(body)` (`Request.key`), the TTL
-    `CACHE_ITEM_TTL` seconds -/
-theorem args_cacheGet_swap : Gen.args_cacheGet_swap = [["req.Method+req.URL.String()+string(body)"]] := rfl
+/-- the key expression of both cached handlers is `requestCacheKey(req, body)` (`Request.key`), the TTL `CACHE_ITEM_TTL` seconds -/
+theorem args_cacheGet_swap : Gen.args_cacheGet_swap = [["requestCacheKey(req,body)"]] := rfl
 theorem args_cacheSet_swap : Gen.args_cacheSet_swap =
-    [["req.Method+req.URL.String()+string(body)", "jsonRes", "time.Second*CACHE_ITEM_TTL"]] := rfl
-theorem args_cacheGet_mint : Gen.args_cacheGet_mint = [["req.Method+req.URL.String()+string(body)"]] := rfl
+    [["requestCacheKey(req,body)", "jsonRes", "time.Second*CACHE_ITEM_TTL"]] := rfl
+theorem args_cacheGet_mint : Gen.args_cacheGet_mint = [["requestCacheKey(req,body)"]] := rfl
 theorem args_cacheSet_mint : Gen.args_cacheSet_mint =
-    [["req.Method+req.URL.String()+string(body)", "jsonRes", "time.Second*CACHE_ITEM_TTL"]] := rfl
+    [["requestCacheKey(req,body)", "jsonRes", "time.Second*CACHE_ITEM_TTL"]] := rfl
+/-- `Request.key`: method, URL and body joined by one NUL byte each (`keySep`) -/
+theorem src_requestCacheKey : Gen.src_requestCacheKey = [
+  "func requestCacheKey(req *http.Request, body []byte) string {",
+  "return req.Method + \"\\x00\" + req.URL.String() + \"\\x00\" + string(body)",
+  "}"
+] := rfl
+theorem keySep_is_nul : keySep.toList = [Char.ofNat 0] ∧
+    (Request.key { method := "POST", segs := [], url := "/v1/swap", body := "{}" }).toList =
+      "POST".toList ++ [Char.ofNat 0] ++ "/v1/swap".toList ++ [Char.ofNat 0] ++ "{}".toList := by decide
 /-- the keyset uses: key `id` (the path variable) / the constant `ACTIVE_KEYSET`, TTL `KEYSET_TTL` -/
 theorem args_cache_keys :
     Gen.args_cacheGet_keysById = [["id"]] ∧ Gen.args_cacheSet_keysById = [["id", "jsonRes", "time.Second*KEYSET_TTL"]] ∧
